@@ -262,6 +262,7 @@ class SVGImage:
         self._base_url = base_url
         self._url_fetcher = url_fetcher
         self._context = context
+        self._drawing = False
 
     def get_intrinsic_size(self, image_resolution, font_size):
         width, height = self._svg.get_intrinsic_size(font_size)
@@ -282,6 +283,10 @@ class SVGImage:
         return width, height, ratio
 
     def draw(self, stream, concrete_width, concrete_height, image_rendering):
+        if self._drawing:
+            LOGGER.error('SVG image %s includes itself', self._base_url)
+            return
+        self._drawing = True
         try:
             self._svg.draw(
                 stream, concrete_width, concrete_height, self._base_url,
@@ -289,6 +294,8 @@ class SVGImage:
         except BaseException as exception:
             LOGGER.error('Failed to render SVG image %s', self._base_url)
             LOGGER.debug('Error while rendering SVG image:', exc_info=exception)
+        finally:
+            self._drawing = False
 
 
 def get_image_from_uri(cache, url_fetcher, options, url, forced_mime_type=None,
